@@ -2,7 +2,7 @@
 import os, re
 from . import core
 
-PAIRS = [("sse2", "assert"), ("scalar", "assert-scalar")]
+PAIRS = [("sse2", "assert"), ("scalar", "assert-scalar"), ("sse2-rel", "assert-rel")]     # glam-assert asserts in every profile
 
 
 def run(res, only=None):
